@@ -63,7 +63,7 @@ def r1_termination(ctx, res):
     from ..speccheck import view
     v = view(ctx, 'taxonomy', 'taxonomy_depth')
     key = 'taxonomy_depth:bounded-for'
-    fors = sorted({c for r in v.rows for c in r[3] if c.startswith('for ')})
+    fors = sorted({r[3][0] for r in v.rows if r[0] in ('store', 'aug') and r[3] and r[1].startswith('#2')})
     res.inst(key, v.loc(), f'{fors}')
     if fors != ['for _synsets_for_pos(wordnet, pos)']:
         res.find(key, v.loc(), f'taxonomy_depth iterates {fors} instead of all synsets of the part of speech (_synsets_for_pos(wordnet, pos)): '
